@@ -383,3 +383,171 @@ func staleForkFamily(r *corr.Run) []scenario {
 	}
 	return out
 }
+
+// faultFamily: small base schedules whose last interesting step (a delivery that writes, or a local
+// add) is repeated with the k-th write-side storage call failing, for every k the step makes
+// (transaction begin, each insert, the heads-entry upsert, commit). After the failed step the same
+// message is delivered again without a fault, the replica writes a change of its own, and the usual
+// anti-entropy phase follows. Aimed at: rollback of the in-memory tree after a failed storage write
+// (plain batch, batch that moves the common snapshot, response batch, rebuild-from-storage path,
+// local add / local snapshot), "attached but not stored", heads vs. durable heads entry.
+func faultFamily() []func(k int) scenario {
+	type base struct {
+		name string
+		n    int
+		// prepare returns the message to fail (nil: fail a local add on replica `at`)
+		prepare func(w *world) (m *message, at int, snap bool)
+	}
+	bases := []base{
+		{"plain head update", 2, func(w *world) (*message, int, bool) {
+			w.stepAdd(0, false)
+			return w.first(kHU, 0, 1), 1, false
+		}},
+		{"head update with a snapshot the receiver reduces to", 2, func(w *world) (*message, int, bool) {
+			w.stepAdd(0, false)
+			w.deliverAll()
+			w.stepAdd(0, true)
+			return w.first(kHU, 0, 1), 1, false
+		}},
+		{"response with changes, a snapshot and more changes", 2, func(w *world) (*message, int, bool) {
+			w.stepAdd(0, false)
+			w.stepAdd(0, true)
+			w.stepAdd(0, false)
+			w.dropAll()
+			w.stepSync(1, 0)
+			w.deliverIf(w.first(kReq, 1, 0))
+			return w.first(kResp, 0, 1), 1, false
+		}},
+		{"stale fork: the receiver rebuilds from storage at an older snapshot", 3, func(w *world) (*message, int, bool) {
+			w.stepAdd(0, false)
+			w.settle()
+			w.stepAdd(0, true)
+			w.stepAdd(0, false)
+			w.settle(2)
+			w.stepAdd(2, false)
+			return w.first(kHU, 2, 0), 0, false
+		}},
+		{"merge of two branches with a snapshot on one of them", 2, func(w *world) (*message, int, bool) {
+			w.stepAdd(0, false)
+			w.deliverAll()
+			w.stepAdd(1, false)
+			w.stepAdd(0, true)
+			w.deliverIf(w.first(kHU, 1, 0))
+			return w.first(kHU, 0, 1), 1, false
+		}},
+		{"local add", 2, func(w *world) (*message, int, bool) {
+			w.stepAdd(0, false)
+			w.deliverAll()
+			return nil, 1, false
+		}},
+		{"local snapshot", 2, func(w *world) (*message, int, bool) {
+			w.stepAdd(0, false)
+			w.stepAdd(0, false)
+			w.deliverAll()
+			return nil, 1, true
+		}},
+	}
+	var out []func(k int) scenario
+	for _, b := range bases {
+		b := b
+		out = append(out, func(k int) scenario {
+			return scenario{fmt.Sprintf("storage fault at write call %d: %s", k, b.name), b.n, 0, func(w *world) {
+				w.deep = true
+				m, at, snap := b.prepare(w)
+				if w.failed {
+					return
+				}
+				if m == nil {
+					w.faultFired = w.stepAddFault(at, snap, k)
+				} else {
+					w.stepDup(m)
+					w.faultFired = w.stepDeliverFault(m, k)
+				}
+				if w.failed {
+					return
+				}
+				// again, without a fault; then the replica goes on working
+				w.deliverAll()
+				if !w.failed {
+					w.stepAdd(at, false)
+				}
+				w.deliverAll()
+			}}
+		})
+	}
+	return out
+}
+
+// manyHeadsFamily: three or more concurrent heads that cite two different snapshots reach a replica
+// whose in-memory root is still the older snapshot, in every relative id order of the heads (heads
+// are kept sorted by id and reduceTree walks them in that order). Replica 0 writes snapshot s1 (all
+// follow), replica 1 writes a change on s1 that nobody sees, replica 0 writes snapshot s2 which only 2
+// and 3 receive, and 0, 2, 3 each write a change on s2. Replica 1 then syncs with the others one by
+// one (remote adds handled in memory), receives one more remote change, and writes itself. Aimed at:
+// reduceTree with >= 3 heads (common snapshot of all heads), heads after reduce, heads entry, reopen.
+func manyHeadsFamily() []scenario {
+	var out []scenario
+	// position of the s1-citing head among the s2-citing ones, by id: 0 = smallest … 3 = largest
+	for pos := 0; pos <= 3; pos++ {
+		for variant := 0; variant <= 3; variant++ {
+			// gather: replica 0 first collects the heads written on s2, so that replica 1 gets s2 and all
+			// of them in ONE response (a batch that brings its own snapshot is added in memory; a batch
+			// citing an attached snapshot that is not the root goes through rebuild-from-storage)
+			pos, extra, gather := pos, variant&1, variant>>1
+			out = append(out, scenario{fmt.Sprintf("three or four heads over two snapshots, older-snapshot head at id position %d, extra=%d, gather=%d", pos, extra, gather), 4, 0, func(w *world) {
+				w.deep = true
+				w.stepAdd(0, false)
+				w.settle()
+				w.stepAdd(0, true) // s1
+				w.settle()
+				w.stepAdd(1, false) // on s1, seen by nobody yet
+				w.dropAll()
+				if w.failed {
+					return
+				}
+				pivot := w.chs[len(w.chs)-1].real
+				w.stepAdd(0, true) // s2
+				w.settle(1)
+				// the heads on s2: `pos` of them sort before the pivot, the others after it
+				writers := []int{2, 3, 0}
+				for n, r := range writers {
+					before := n < pos
+					w.idWanted = func(id string) bool { return (id < pivot) == before }
+					w.stepAdd(r, false)
+					w.dropAll()
+				}
+				if gather == 1 {
+					for _, r := range []int{2, 3} {
+						if !w.failed {
+							w.exchange(0, r)
+						}
+						w.dropAll()
+					}
+					if !w.failed {
+						w.exchange(1, 0)
+					}
+				} else {
+					// replica 1 learns everything, one peer at a time
+					for _, r := range []int{2, 3, 0} {
+						if !w.failed {
+							w.exchange(1, r)
+						}
+					}
+				}
+				w.dropAll()
+				if extra == 1 && !w.failed {
+					// one more remote change, then a local one
+					w.stepAdd(2, false)
+					w.dropAll()
+					w.exchange(1, 2)
+					w.dropAll()
+				}
+				if !w.failed {
+					w.stepAdd(1, false)
+				}
+				w.dropAll()
+			}})
+		}
+	}
+	return out
+}
